@@ -165,7 +165,8 @@ pub fn run(ctx: &Ctx) -> Report {
     }
     // regression corpus first
     for (cfg, ops) in corpus() {
-        check_case(&mut rep, &mut model, &cfg, &ops, true);
+        // the model side is skipped for the cases made of thousands of calls (oracle only: real writer, real reader)
+        check_case(&mut rep, &mut model, &cfg, &ops, ops.len() < 300);
     }
     if CONSTS.scaled {
         // exhaustive alignment sweep: one file of every length 0..=3*chunk+20 and 0..=2*block+5
@@ -243,6 +244,18 @@ pub fn corpus() -> Vec<(Cfg, Vec<Op>)> {
     }
     // D12-adjacent: longest legal name
     v.push((Cfg::plain(), vec![Op::Add { name: "n".repeat(65536), size: 3, src: vec![1, 2, 3] }, Op::Finalize]));
+    // incompressible data across more than one compression block, written in small pieces (every piece is
+    // its own brotli meta-block at levels 0/1, every flush adds a few bytes at any level): the compressed
+    // block is then noticeably LARGER than the data it holds
+    for (level, piece, flush) in [(0u32, 3000usize, false), (1, 900, false), (5, 1000, true)] {
+        let total = CONSTS.block + CONSTS.block / 4 + 7;
+        let data = rng.bytes(total, 3);
+        let mut ops = vec![Op::Start("noise".into())];
+        let mut off = 0;
+        while off < total { let n = piece.min(total - off); ops.push(Op::Append { id: 0, size: n as u64, src: data[off..off + n].to_vec() }); if flush { ops.push(Op::Flush); } off += n; }
+        ops.extend([Op::End(0), Op::Finalize]);
+        if !CONSTS.scaled || level == 5 { v.push((Cfg { layers: L_COMP, level, recipients: vec![], reader: 0 }, ops)); }
+    }
     // many files open at once (20), closed oldest first, the others still being written
     {
         let n = 20usize;
